@@ -66,7 +66,12 @@ def npointsOf (l : List Dim) : Nat := (l.map (fun d => d.values.length)).prod
 /-- validation of one side (nothing is created) -/
 def validateSide (g : Group) (a : SideArg) (pfx : String) (want : Nat) : Except PyErr Unit :=
   match a with
-  | .reuse _ _ npts _ => if npts != want then .error .valueErr else .ok ()
+  | .reuse base _ npts same =>
+    if npts != want then .error .valueErr
+    -- a pair living in another file is copied into the group under its own names: a different object already
+    -- sitting at one of them makes the copy fail (an identical dataset would be taken over - not modelled)
+    else if !same && (g.members.contains (base ++ "Indices") || g.members.contains (base ++ "Values")) then .error .valueErr
+    else .ok ()
   | .reuseBad _ _ => .error .valueErr
   | .badType =>
     if g.members.contains (pfx ++ "Indices") || g.members.contains (pfx ++ "Values") then .error .keyErr
